@@ -309,7 +309,10 @@ class Ctx(object):
                 model = v.model
                 syms = solve.free_symbols(*[self.cache[n] for n in self.cache])
                 rm = None
-                if v.where is not None and 'witness by evaluation' not in (v.note or ''):
+                self._robust_used = getattr(self, '_robust_used', 0) + 1
+                if v.where is not None and 'witness by evaluation' not in (v.note or '') and self._robust_used <= 3:
+                    # (at most three searches for a robust counterexample per scenario run: a change that breaks many obligations at once would
+                    # otherwise spend the whole task budget here; the replay also tries random inputs)
                     try:
                         rm = solve.robust_model(out, oracle, v.where, assum, syms, min(self.timeout_ms, 30000))
                         if rm is None and len(syms) <= 80:
